@@ -104,8 +104,10 @@ var c16Inline = map[string]string{
 	"@va": "package a\n\nimport \"root/vendor/a.b/x\"\n\nvar v = x.T{F: x.K}\n",
 	"@vb": "package a\n\nimport (\n\t\"fmt\"\n\n\t\"root/vendor/c.d/x\"\n)\n\nfunc f() {\n\tfmt.Println(x.V)\n}\n",
 	"@vc": "package a\n\nimport y \"vendor/e.f/y-go\"\n\nvar _ = y.F(y.V)\n",
-	"@xa": "package a\n\nimport (\n\t\"fmt\"\n\n\t\"a.b/x\"\n)\n\nfunc f() {\n\tfmt.Println(x.V, x.K)\n\tx.F()\n}\n",
-	"@xb": "package a\n\nimport \"c.d/x\"\n\nvar v = x.T{F: x.K}\n\nfunc g() x.T { return x.F(v) }\n",
+	// both files have qualified identifiers with a comment and a line break behind the dot (decorations of three ast
+	// nodes are merged into one identifier there)
+	"@xa": "package a\n\nimport (\n\t\"fmt\"\n\n\t\"a.b/x\"\n)\n\nfunc f() {\n\tfmt. // after the dot\n\t\tPrintln(x.V, x.K)\n\tx.F()\n}\n",
+	"@xb": "package a\n\nimport \"c.d/x\"\n\nvar v = x.T{F: x.K}\n\nfunc g() x.T {\n\treturn x. /* b */ // c\n\t\t// d\n\t\tF(v)\n}\n",
 }
 var c16MapScenarios = []string{"imports-alias-collision", "imports-two-specs-one-alias", "newpackage-import-error", "imports-added-conflict", "imports-aliases-override", "imports-removed", "package-decorate-print", "package-decorate-print-multiline", "newpackage", "goast-roundtrip", "extras-bytes", "clone-package"}
 
